@@ -295,8 +295,12 @@ def run_old(ctx, quick):
             mm = model.batch(["protocol " + " ".join(order)])[0].split()
             if mm[0] != "4":
                 ctx.corr_break("prange:protocol", inp, got, mm)
-            if got != ("E", 0):
-                ctx.fail("prange_exception_lost_to_break", inp, got, ("E", 0))
+            # only "raise first" forces the raising iteration to run: when the break comes first (or the two race) the
+            # other thread may skip its iteration altogether (iterations are not started once an exit is flagged),
+            # so completing without an exception is a legal outcome there
+            legal = [("E", 0)] if a[1] + 100000 <= a[2] else [("E", 0), ("ok", -1)]
+            if got not in legal:
+                ctx.fail("prange_exception_lost_to_break", inp, got, legal)
             if lc != 0:
                 ctx.fail("prange_exception_leak", inp, {"live exception objects after the call": lc}, 0)
             continue
